@@ -103,6 +103,9 @@ func merge(dst, src *stats) {
 	dst.holds += src.holds
 	dst.queuedStart += src.queuedStart
 	dst.superseded += src.superseded
+	dst.srvReturned += src.srvReturned
+	dst.srvLingering += src.srvLingering
+	dst.silentDead += src.silentDead
 }
 
 func main() {
@@ -158,6 +161,16 @@ func main() {
 		jobs = append(jobs, job{kind: "legal", limit: limits[i%3], seed: seeds.Int63()})
 	}
 
+	if sd := os.Getenv("VERIF_C13_SCRIPT"); sd != "" { // debugging aid: "<random|legal> <limit> <seed>": run one script, print its trace
+		var j job
+		fmt.Sscanf(sd, "%s %d %d", &j.kind, &j.limit, &j.seed)
+		c, _ := j.run(newStats())
+		for _, l := range c.trace {
+			fmt.Printf("[trace] %.400s\n", l)
+		}
+		run.Inconclusive("VERIF_C13_SCRIPT: single script, fail=%v", c.fail)
+		run.Finish()
+	}
 	if only := os.Getenv("VERIF_C13_ONLY"); only != "" { // debugging aid: cell | random | legal
 		var sel []job
 		for _, j := range jobs {
@@ -172,6 +185,7 @@ func main() {
 	var mu sync.Mutex
 	cellSeen := map[string]bool{}
 	perKind := map[string]int64{}
+	durBy := map[string]time.Duration{}
 	incClasses := map[string]int{}
 	var incFirst []string
 	ch := make(chan job, 64)
@@ -188,7 +202,7 @@ func main() {
 				st := newStats()
 				t0 := time.Now()
 				c, w := j.run(st)
-				if d := time.Since(t0); d > 3*time.Second {
+				if d := time.Since(t0); d > 5*time.Second {
 					last := ""
 					if n := len(c.trace); n > 0 {
 						last = c.trace[n-1]
@@ -211,6 +225,7 @@ func main() {
 				mu.Lock()
 				merge(total, st)
 				perKind[j.kind]++
+				durBy[j.kind+" "+j.state] += time.Since(t0)
 				if j.kind == "cell" && (c.fail == nil || c.fail.kind == "violation") {
 					cellSeen[j.state+" x "+variants[j.vr].name] = true
 				}
@@ -242,6 +257,11 @@ func main() {
 	for k, v := range perKind {
 		run.Add("scripts_"+k, v)
 	}
+	if os.Getenv("VERIF_C13_TIMING") != "" {
+		for k, v := range durBy {
+			run.Logf("time spent in %-28s %v", k, v.Round(time.Millisecond))
+		}
+	}
 	for k, v := range total.frames {
 		run.Add("frames_sent_"+k, v)
 	}
@@ -266,6 +286,9 @@ func main() {
 	run.Add("reset_in_flight_constructions", total.holds)
 	run.Add("handler_starts_queued_behind_zombies", total.queuedStart)
 	run.Add("rst_superseded_by_goaway", total.superseded)
+	run.Add("serveconn_returned_after_close", total.srvReturned)
+	run.Add("serveconn_left_to_its_goaway_timer", total.srvLingering)
+	run.Add("connection_errors_after_graceful_goaway_signalled_by_silence", total.silentDead)
 	run.Add("cells_total", int64(len(states)*len(variants)))
 	run.Add("cells_covered", int64(len(cellSeen)))
 	var missing []string
